@@ -156,12 +156,12 @@ theorem stepIdx_eq_interp (d : Dom) (i : Nat) :
     simp only [show (Phase1.index == Phase1.liveView) = false from rfl, Bool.false_and, Bool.false_eq_true, if_false,
       show (Phase1.index == Phase1.index) = true from rfl, if_true, getElem?_guard]
     by_cases hlt : i < cache.length
-    · simp [List.getElem?_eq_getElem hlt, embI]
+    · simp [List.getElem?_eq_getElem hlt]
     · have hn : cache[i]? = none := List.getElem?_eq_none (by omega)
       simp only [hn]
       cases rest with
       | nil => simp [afterReplay, idxPull, finish, embI, hi]
-      | cons y ys => simp [afterReplay, idxPull, embI]
+      | cons y ys => simp [afterReplay, idxPull]
 
 theorem qnextIdx_eq_interp (sat : List Nat) : ∀ (fuel : Nat) (d : Dom) (i : Nat),
     qnextS shapeIdx (embD d) ⟨embI i, sat⟩ fuel =
